@@ -11,7 +11,7 @@ from .edges import make_jobs, run_jobs
 from .machine import run_units, classify, trap_kind, replay_unit
 from .facts import edge_sig
 
-SAFETY_TRAPS = {"oob", "oobwin", "rank", "unbound", "rebound", "nonpos", "negtrip", "shape", "alias", "precond", "badarg"}
+SAFETY_TRAPS = {"oob", "oobwin", "rank", "unbound", "rebound", "nonpos", "negtrip", "shape", "alias", "precond", "badarg", "illtyped"}
 HEAP_TRAPS = {"uaf", "dfree", "leak", "dangling"}
 
 
@@ -27,12 +27,12 @@ def verdict_class(v):
         return "inconclusive", v
     if v.startswith("A-trap:"):
         k = trap_kind(v)
-        if k in ("inexact", "divzero"):
+        if k in ("inexact", "divzero", "winext"):
             return "inconclusive", k
         return "a-trap", k
     if v.startswith("B-trap:"):
         k = trap_kind(v)
-        if k in ("inexact", "divzero"):
+        if k in ("inexact", "divzero", "winext"):
             return "inconclusive", k
         if k in SAFETY_TRAPS:
             return "safety", k
@@ -50,6 +50,15 @@ def verdict_class(v):
     if v.startswith("cfg-differ:"):
         return "cfg", v.split(":", 1)[1]
     return "other", v
+
+
+def trap_stmt_kind(unit, v):
+    """kind of the statement at which a trap verdict 'X-trap:kind@proc.block.stmt' was raised"""
+    try:
+        p, b, i = (int(x) for x in v.split("@", 1)[1].split("."))
+        return unit["procs"][p - 1]["blocks"][b - 1][i - 1]["k"]
+    except Exception:
+        return ""
 
 
 def collect_edges(modules, tier, cap, ops=None, depth2=0, select=None, nshards=4, **kw):
@@ -119,6 +128,7 @@ def decide_edges(rep: Report, edges, viol_classes, stepbound, workdir, sig_fn=No
             sig = {"op": e["op"], "class": cls, "detail": verdict_class(v)[1].split("@")[0].split("[")[0],
                    "prog": e["prog"], "args": e["args"]}
             sig.update({f"fact_{kk}": vv for kk, vv in e["facts"].items()})
+            sig["fact_trap_at"] = trap_stmt_kind(units[k], v)
             sig = edge_sig(sig, e, v)
             if sig_fn:
                 sig = sig_fn(sig, e, v)
